@@ -42,6 +42,7 @@ from pbt.core import (  # noqa: E402
 QUICK_SHARDS = int(os.environ.get("PBT_QUICK_SHARDS", "4"))
 THOROUGH_SHARDS = int(os.environ.get("PBT_THOROUGH_SHARDS", "16"))
 MAX_ROUNDS = {"quick": 3, "thorough": 6}
+SHRINK_BUDGET_S = {"quick": 15.0, "thorough": 90.0}  # seconds of shrinking per failure (a bigger replay is still a replay)
 WATCHDOG = {"quick": 900, "thorough": 4 * 3600}
 
 
@@ -92,6 +93,10 @@ def run_case(sub: Sub, case: Any):
             return ctx, Violation(
                 f"crash:{type(exc).__name__}", f"{type(exc).__name__}: {str(exc)[:200]}", frame
             )
+        msg = str(exc)
+        if isinstance(exc, AttributeError) and ("physt" in msg or any(n in msg for n in ("Histogram", "Binning", "Statistics", "Collection"))):
+            # a public attribute / function of physt that the check reads is gone or of another kind
+            return ctx, Violation("missing_api", f"AttributeError: {msg[:200]}", "")
         raise HarnessError(
             f"check {sub.name} crashed outside physt: {type(exc).__name__}: {exc}\n"
             + traceback.format_exc()
@@ -146,6 +151,10 @@ def run_shard(mod, pid: str, tier: str, seed: int, shard: int, nshards: int, act
 
             def body(case):
                 _st, _last, _sub, _sx = st, last, sub, session_excluded
+                if "t0" in _last and time.time() - _last["t0"] > SHRINK_BUDGET_S[tier]:
+                    # shrinking has had its time: let Hypothesis wind down (it then reports the run as flaky, and the
+                    # smallest failing case recorded so far is the one that is written out)
+                    return
                 _st["evaluations"] += 1
                 ctx, v = run_case(_sub, case)
                 for lab in ctx.labels:
@@ -168,6 +177,7 @@ def run_shard(mod, pid: str, tier: str, seed: int, shard: int, nshards: int, act
                     return
                 _last["case"] = case
                 _last["v"] = v
+                _last.setdefault("t0", time.time())
                 raise v
 
             test = given(sub.strategy(tier))(body)
